@@ -220,8 +220,13 @@ def impl_oracle(c):
                     and first["kind"] in ("good", "tail", "dup") and not fatal_before(first["at"]):
                 if x["res"] != "ok" or (x.get("fields") or []) != (first.get("fields") or []):
                     out.append(("answered-not-completed",
-                                "call %d was answered by the peer (frame %s) while the transport was up, "
-                                "but returned %s" % (k, first["kind"], x["res"])))
+                                "call %d was answered by the peer (frame %s, %d bytes, sent as %s; the transport's "
+                                "connection delivers %s per Read) while the transport was up, but returned %s"
+                                % (k, first["kind"], first.get("len", 0),
+                                   {"": "one websocket frame"}.get(first.get("shape", ""),
+                                       "two fragments, the first of %s bytes" % first.get("shape", "")[5:]),
+                                   "at most %d bytes" % c["chunk"] if c.get("chunk") else "whatever has arrived",
+                                   x["res"])))
     return out
 
 
@@ -288,7 +293,12 @@ def run(ck):
         nframes = len(c.get("frames", []))
         trivial = len(c.get("callers", [])) <= 1 and nframes <= 1 and c["stream"] not in ("stress", "page")
         # (the key does not depend on the order in which concurrent callers reached the wire)
-        ck.count(c["stream"], key=json.dumps([c["steps"], [(x["k"], x["res"]) for x in c["callers"]]],
+        sh = ck.coverage.setdefault("reply_transport_shapes", {})
+        for f in c.get("frames", []):
+            if f.get("kind") != "text":
+                kk = "%s / reads of %s" % (f.get("shape") or "one frame", c.get("chunk") or "any size")
+                sh[kk] = sh.get(kk, 0) + 1
+        ck.count(c["stream"], key=json.dumps([c["steps"], c.get("chunk"), [(x["k"], x["res"]) for x in c["callers"]]],
                                              sort_keys=True), trivial=trivial)
         for f in c.get("frames", []):
             kinds[f["kind"]] = kinds.get(f["kind"], 0) + 1
